@@ -173,6 +173,18 @@ class Builder:
         v = self.fresh(bound)
         items.append(InP(Var(v), RangeE(Var(rnd.choice(bound)))))
         bound.append(v)
+      elif kind == 'rec' and rnd.random() < 0.4:
+        # r == (if c then {..} else {..}) with two accesses of r
+        v = self.fresh(bound)
+        c = self.bool_expr(bound, 1)
+        r1 = RecE([('a', self.int_expr(bound, 1)), ('b', self.int_expr(bound, 1))])
+        r2 = RecE([('a', self.int_expr(bound, 1)), ('b', self.const())])
+        items.append(Cmp('==', Var(v), If(c, r1, r2)))
+        w = self.fresh(bound + [v])
+        items.append(Cmp('==', Var(w), rnd.choice([Bin('+', Field(Var(v), 'a'), Field(Var(v), 'b')),
+                                                   Bin('-', Field(Var(v), 'b'), Field(Var(v), 'a')),
+                                                   Bin('+', Field(Var(v), 'a'), Field(Var(v), 'a'))])))
+        bound.append(w)
       elif kind == 'rec':
         v = self.fresh(bound)
         f1, f2 = self.int_expr(bound, 1), self.int_expr(bound, 1)
@@ -429,6 +441,15 @@ def agg_case(seed):
     if rnd.random() < 0.5:
       rnd.shuffle(items)
     rules.append(Rule('P', ([x] if outer_is_x else []) + names, body=Conj(items)))
+  elif kind == 'nested' and rnd.random() < 0.4:
+    # two levels deep; the innermost body refers to the rule-level x, the middle one does not
+    opi, opo = rnd.choice(['Sum', 'Max', 'Count']), rnd.choice(['Sum', 'Min', 'Max'])
+    inner = AggE(opi, y, Conj([A('E', x, y), Cmp(rnd.choice(['>=', '!=', '<']), y, w)]), rnd.choice(['brace', 'combine']))
+    outer = AggE(opo, z, Conj([A('G', w), Cmp('==', z, inner)]), 'brace')
+    if rnd.random() < 0.5:
+      rules.append(Rule('P', [x, v], body=Conj([A('G', x), Cmp('==', v, outer)])))
+    else:
+      rules.append(Rule('P', [x], body=Conj([A('G', x), Neg(Conj([A('G', w), Neg(A('E', x, w))]))])))
   elif kind == 'nested':
     opi, opo = rnd.choice(['Sum', 'Max', 'Count']), rnd.choice(['Sum', 'Min', 'Max'])
     inner = AggE(opi, z, Conj([A('F', y, z)]), rnd.choice(['brace', 'combine']))
@@ -588,8 +609,11 @@ def rec_case(seed, deep=False):
     K = 2
   depths = {}
   if depth is not None:
-    ann.append('@Recursive(%s, %d);' % (main, depth))
-    depths[main] = depth
+    target = main
+    if tmpl in ('reach_mutual_cut', 'two_cycle_flat', 'three_cycle_flat') and rnd.random() < 0.5:
+      target = 'Rb'     # the annotation may sit on any member of the component
+    ann.append('@Recursive(%s, %d);' % (target, depth))
+    depths[target] = depth
   prog = Program(rules, ann, ext=EXT)
   c = Case(prog, 'rec', K=K, depths=depths, notes='%s depth=%s' % (tmpl, depth))
   c.rec_mode = mode
@@ -701,7 +725,7 @@ def layered_case(seed):
     name = 'I%d' % i
     a, b, c = [Var(n) for n in rnd.sample(names, 3)]
     kind = rnd.choice(['join', 'neg_agg', 'neg', 'combine', 'in', 'multi', 'distinct', 'agg', 'cmp',
-                       'neg_agg', 'combine', 'rec_field', 'func'])
+                       'neg_agg', 'combine', 'rec_field', 'func', 'distinct_join', 'distinct_join'])
     arity = 1
     functional = False
     if kind == 'join':
@@ -723,6 +747,10 @@ def layered_case(seed):
     elif kind == 'multi':
       rules.append(Rule(name, [a], body=A('G', a)))
       rules.append(Rule(name, [a], body=Conj([A('E', a, b), Cmp('>', b, Num(0))])))
+    elif kind == 'distinct_join':
+      rules.append(Rule(name, [a, b], distinct=True, body=Conj([A('E', a, b), A('G', b)] if rnd.random() < 0.5 else
+                                                            [A('E', a, c), A('F', c, b)])))
+      arity = 2
     elif kind == 'distinct':
       rules.append(Rule(name, [a], distinct=True, body=A('E', a, b)))
     elif kind == 'agg':
@@ -755,6 +783,23 @@ def layered_case(seed):
       items.append(A(name, v1, v2 if rnd.random() < 0.7 else v3))
   if rnd.random() < 0.3:
     items.append(Neg(A('F', v1, v1)))
+  if rnd.random() < 0.4:
+    # an intermediate read from inside a negation or an aggregating expression of the consumer
+    name, arity, functional = inter[rnd.randrange(len(inter))]
+    if not functional:
+      inner_atom = A(name, v1) if arity == 1 else A(name, v1, Var('q'))
+      r = rnd.random()
+      if r < 0.4:
+        items.append(Neg(inner_atom))
+      elif r < 0.7 or arity == 1:
+        cnt = Var('cnt')
+        items.append(Cmp('==', cnt, AggE('Sum', Num(1) if arity == 1 else Var('q'), Conj([inner_atom]), 'brace')))
+        out = out + [cnt]
+      else:
+        # the outer variable is only compared inside the aggregate (no join on it)
+        cnt = Var('cnt')
+        items.append(Cmp('==', cnt, AggE('Sum', Var('q'), Conj([A(name, Var('p'), Var('q')), Cmp('>', Var('p'), v1)]), 'brace')))
+        out = out + [cnt]
   rules.append(Rule('T', out, body=Conj(items)))
   if rnd.random() < 0.4 and inter:
     # a second consumer reading the first and an intermediate again
@@ -797,15 +842,19 @@ def orderby_case(seed):
   kcols = rnd.sample(cols, nkeys)
   keys = [(c, rnd.random() < 0.5) for c in kcols]
   limit = rnd.choice([None, 0, 1, 2, 3, 1, 2])
+  if rnd.random() < 0.12:
+    keys, limit = [], 0      # a limit without any order: only K=0 has a defined meaning
   form = rnd.choice(['annotation', 'denotation', 'annotation_desc_item'])
   ann = []
   if form == 'denotation' and body not in ('multi', 'distinct', 'agg'):
-    den = ' order_by(%s)' % ', '.join('"%s%s"' % (c, ' desc' if d else '') for c, d in keys)
+    den = (' order_by(%s)' % ', '.join('"%s%s"' % (c, ' desc' if d else '') for c, d in keys)) if keys else ''
     if limit is not None:
       den += ' limit(%d)' % limit
     rules[0].denotation = den
   else:
-    if form == 'annotation_desc_item':
+    if not keys:
+      pass
+    elif form == 'annotation_desc_item':
       parts = []
       for c, d in keys:
         parts.append('"%s"' % c)
